@@ -1,0 +1,71 @@
+//go:build verif
+
+package tcpassembly
+
+import (
+	"sort"
+
+	"github.com/gopacket/gopacket"
+)
+
+// Yield points and read-only accessors for the schedule-replay harness of the
+// shared-pool property (build tag `verif` only).  A controller installed with
+// VerifSetController is called at every yield point with the site name and the
+// connection concerned; it may block the calling goroutine until it is
+// scheduled.  Sites:
+//
+//	pool.miss    getConnection: after RUnlock, before factory.New / Lock
+//	pool.new     newConnection: a connection object was taken (notification)
+//	conn.lock    before conn.mu.Lock()
+//	conn.unlock  after conn.mu.Unlock() (notification)
+//	conn.retry   Assemble: the locked connection was closed, before looking up again
+//	pool.remove  remove: before the pool lock is taken (connection lock held)
+var verifCtl func(site string, obj interface{})
+
+// verifRank orders the snapshot taken by connections() so that a flush visits
+// the connections in an order the controller can reproduce.
+var verifRank func(obj interface{}) int
+
+// VerifSetController installs (or, with nil, removes) the controller.
+func VerifSetController(ctl func(site string, obj interface{}), rank func(obj interface{}) int) {
+	verifCtl, verifRank = ctl, rank
+}
+
+func verifYield(site string, obj interface{}) {
+	if ctl := verifCtl; ctl != nil {
+		ctl(site, obj)
+	}
+}
+
+func verifOrderConns(conns []*connection) {
+	if rank := verifRank; rank != nil {
+		sort.SliceStable(conns, func(i, j int) bool { return rank(conns[i]) < rank(conns[j]) })
+	}
+}
+
+// VerifPoolEntry is one entry of the pool's connection map.
+type VerifPoolEntry struct {
+	Net, Transport gopacket.Flow
+	Conn           interface{}
+}
+
+// VerifPoolState returns the pool's map entries and its free list (top last).
+// The caller must make sure no assembler is inside a pool section.
+func VerifPoolState(p *StreamPool) (entries []VerifPoolEntry, free []interface{}) {
+	p.mu.RLock()
+	defer p.mu.RUnlock()
+	for k, c := range p.conns {
+		entries = append(entries, VerifPoolEntry{k[0], k[1], c})
+	}
+	for _, c := range p.free {
+		free = append(free, c)
+	}
+	return
+}
+
+// VerifConnInfo returns the key, stream and closed flag of a connection object
+// handed to the controller.  The caller must hold the scheduling token.
+func VerifConnInfo(obj interface{}) (net, transport gopacket.Flow, s Stream, closed bool) {
+	c := obj.(*connection)
+	return c.key[0], c.key[1], c.stream, c.closed
+}
